@@ -140,6 +140,11 @@ impl Root {
         let (changed, tracker) = self.tracked_scope(|| callback(&mut value));
         self.current_node.set(prev);
 
+        // The callback may have disposed the scope that owns this very node.
+        if self.nodes.borrow().get(current).is_none() {
+            return;
+        }
+
         tracker.create_dependency_link(self, current);
 
         let mut nodes_mut = self.nodes.borrow_mut();
@@ -294,11 +299,18 @@ impl DependencyTracker {
     /// Sets the `dependents` field for all the nodes that have been tracked and updates
     /// `dependencies` of the `dependent`.
     pub fn create_dependency_link(self, root: &Root, dependent: NodeId) {
-        for node in &self.dependencies {
-            root.nodes.borrow_mut()[*node].dependents.push(dependent);
+        let mut nodes = root.nodes.borrow_mut();
+        if !nodes.contains_key(dependent) {
+            return;
+        }
+        // A tracked signal may have been disposed again during the same run.
+        let mut dependencies = self.dependencies;
+        dependencies.retain(|id| nodes.contains_key(*id));
+        for node in &dependencies {
+            nodes[*node].dependents.push(dependent);
         }
         // Set the signal dependencies so that it is updated automatically.
-        root.nodes.borrow_mut()[dependent].dependencies = self.dependencies;
+        nodes[dependent].dependencies = dependencies;
     }
 }
 
